@@ -178,6 +178,17 @@ def build_cases(ctx, rng, lits, kws):
         if i % 6 == 0: add('grammar', refgrammar.spell(lex))
         t, kinds = mutate(rng, lex, lits)
         add('mutant', t, sub='+'.join(sorted(set(kinds))))
+    # prefixes of valid programs ending exactly after each lexeme (no line end after it), and with a blank / comment after it
+    for i in range(4 if q else 60):
+        g = refgrammar.Gen(rng, kws)
+        lex, lib = g.library(1)
+        cut = [k for k, x in enumerate(lex) if x[0] not in ('_', 'nl', 'g0')]
+        for k in (cut if len(cut) <= 160 else rng.sample(cut, 160)):
+            pre = refgrammar.spell(lex[:k + 1])
+            add('prefix', pre, sub=str(lex[k][1])[:12])
+            if rng.random() < 0.15: add('prefix', pre + rng.choice([' ', '  (* c *)', '\t', ' (* c *) ']), sub=str(lex[k][1])[:12])
+    for w in ['END_IF', 'END_IF ', 'IF a THEN x := 1; END_IF', 'PROGRAM p\nIF a THEN x := 1; END_IF', 'END_IF (* c *)', 'end_if', 'END_IF END_IF']:
+        add('prefix', w, sub='end-if')
     # analysable units (valid or with one planted fault) whose statements get structured / subscripted variables in place
     # of plain ones: they parse, and the analysis (type resolution, the rule visitors and their messages) meets shapes
     # the plain units do not have
@@ -350,6 +361,10 @@ def run(ctx):
     rng.shuffle(pick)
     chains = [i for i, c in enumerate(cases) if c['kind'].startswith('chain:') or c['kind'].startswith('nest')]
     chosen = (chains if not ctx.quick() else chains[::3]) + pick[:(60 if ctx.quick() else 1200)]
+    # the deepest tree a file within the size limit can hold goes through the binary in every tier (the stack of the
+    # compiler thread is a constant of the binary)
+    cases.append(dict(kind='chain:+', data=chain('+', 65536).encode(), sub='65536-cli'))
+    chosen.append(len(cases) - 1)
     import concurrent.futures as cf
     def run_one(i):
         c = cases[i]
